@@ -14,8 +14,8 @@ pub struct C14;
 
 fn n_cases(tier: Tier) -> u64 {
     match tier {
-        Tier::Quick => 8_000,
-        Tier::Thorough => 200_000,
+        Tier::Quick => 80_000,
+        Tier::Thorough => 2_000_000,
     }
 }
 
